@@ -62,6 +62,26 @@ def process(ctx, mod, case_iter):
                 raise core.HarnessError(f"compare/oracle crashed on {case}: {traceback.format_exc()}")
         chunk.clear()
 
+    nproc = getattr(mod, "PARALLEL", 0) if ctx.tier == "thorough" else 0
+    if nproc:
+        # thorough tier: the implementation is evaluated by a fork pool (molgri is already imported in the parent)
+        import itertools
+        import multiprocessing as mp
+        size = getattr(mod, "CHUNK", CHUNK)
+        with mp.get_context("fork").Pool(nproc) as pool:
+            it = iter(case_iter)
+            while True:
+                batch = list(itertools.islice(it, size))
+                if not batch:
+                    break
+                outs = pool.map(mod.impl, batch, chunksize=max(1, len(batch) // (4 * nproc)))
+                ctx.count(len(batch))
+                chunk.extend(zip(batch, outs))
+                flush()
+                if ctx.time_left() < 0:
+                    ctx.note("time budget reached; generation stopped early")
+                    break
+        return
     for case in case_iter:
         ctx.count()
         out = mod.impl(case)
